@@ -78,6 +78,6 @@ class JsonfileReader(AbstractReader):
                     (fieldtype_for_value(val, "string"), key) for key, val in jd.items() if not key.startswith("_")
                 ]
                 desc = record.RecordDescriptor("json/record", fields)
-                obj = desc(**jd)
+                obj = desc.recordType(**jd)
                 if not self.selector or self.selector.match(obj):
                     yield obj
